@@ -150,6 +150,15 @@ Theorem C12_oversize_refused_before_buffering :
 Proof. exact oversize_rejected. Qed.
 Print Assumptions C12_oversize_refused_before_buffering.
 
+(* hypotheses satisfiable: limit 8, 3 bytes collected, a BINARY continuation announcing 5 more *)
+Example C12_oversize_example :
+  let c := mkcfg 8 false false in
+  let s := R RL [] (mkm [1; 2; 3] 2 toy0) false 0 [] 0 false (0, 0, 0, 0) 0 5 0 in
+  s_lflag s < 126 /\ is_data (s_fop s) = true /\ max_msg_size c <= 5 + lenN (m_partial (s_m s))
+  /\ iter toycx toy_decomp c s [9; 9; 9; 9; 9] = PFail (WsErr 1009).
+Proof. vm_compute. repeat split; congruence. Qed.
+Print Assumptions C12_oversize_example.
+
 (* ---- 5. memory: bounded by max_msg_size plus a constant, for every stream and segmentation (FULL) ---- *)
 (* retained s = len(_partial) + total length of _payload_fragments + len(_tail) *)
 Theorem C12_memory_bound :
